@@ -294,6 +294,9 @@ let qeq (q : q) (nz : z) (dz : z) =
 
 let bool_of_string01 s = (s = "1")
 
+(* affine_dimension answers seen in the current case: (space dimension, reference system, answer) *)
+let affdim_seen : (int * sys * int) list ref = ref []
+
 (* queries: returns verdict list *)
 let ref_query c (ans : string list) : (string * verdict) list =
   let id = nexti c in let x = get id in let q = next c in let n = x.dim in let dn = dimn x in
@@ -308,6 +311,29 @@ let ref_query c (ans : string list) : (string * verdict) list =
   | "strictly_contains" -> let y = get (nexti c) in cmpb q (lazy (q_strictly_contains dn x.s y.s))
   | "is_disjoint_from" -> let y = get (nexti c) in cmpb q (lazy (q_is_disjoint dn x.s y.s))
   | "equals" -> let y = get (nexti c) in cmpb q (lazy (q_equals dn x.s y.s))
+  | "affine_dimension" ->
+      (* no reference value (the model has no rank theory).  What C01 states is judged: the answer is a function of the
+         point set -- it must coincide with every earlier answer given, in this case, for an object that the verified
+         equivalence decides to denote the same set; plus the exact values that follow from decided facts:
+         0 on the empty set, the space dimension on the universe, at most the space dimension always *)
+      (match ans with
+       | ["ans"; "n"; v] ->
+           let v = int_of_string v in
+           let same = List.filter_map (fun (d, s, a) ->
+             if d <> n then None else
+             match timed (fun () -> equiv_sys dn s x.s) None with Some true -> Some a | _ -> None) !affdim_seen in
+           affdim_seen := (n, x.s, v) :: !affdim_seen;
+           let r1 = [ "affine_dimension/same-set", (if List.for_all (fun a -> a = v) same then Ok
+                       else Fail (Printf.sprintf "answer %d, but %d was answered for an object denoting the same set" v (List.find (fun a -> a <> v) same))) ] in
+           let r2 = [ "affine_dimension/range", (if v < 0 || v > n then Fail "outside 0..space dimension" else Ok) ] in
+           let r3 = (match timed (fun () -> q_is_empty dn x.s) None with
+                     | Some true -> [ "affine_dimension/empty", (if v = 0 then Ok else Fail "non-zero on the empty set") ]
+                     | Some false -> (match timed (fun () -> q_is_universe dn x.s) None with
+                                      | Some true -> [ "affine_dimension/universe", (if v = n then Ok else Fail "universe must have full dimension") ]
+                                      | _ -> [])
+                     | None -> []) in
+           r1 @ r2 @ r3
+       | _ -> raise (Syntax "expected ans n"))
   | "constrains" -> let v = nexti c in cmpb q (lazy (q_constrains dn (nat v) x.s))
   | "bounds_from_above" -> let e = read_expr_n c in cmpb q (lazy (q_bounds_above (nat n) e x.s))
   | "bounds_from_below" -> let e = read_expr_n c in cmpb q (lazy (q_bounds_below (nat n) e x.s))
@@ -422,7 +448,7 @@ let () =
       (match toks with
        | [] -> ()
        | t :: _ when t.[0] = '#' -> ()
-       | "case" :: id :: _ -> case := id; step := 0; dead := false; Hashtbl.reset pool; incr stats_cases; ignore (rdo ())
+       | "case" :: id :: _ -> case := id; step := 0; dead := false; Hashtbl.reset pool; affdim_seen := []; incr stats_cases; ignore (rdo ())
        | "end" :: _ -> ignore (rdo ())
        | _ when !dead ->
            (* after a failure the case is abandoned; consume the matching observation lines *)
